@@ -146,6 +146,9 @@ class C03(Prop):
         flist = [tuple(only)] if only else self.fault_list(spec, ex0, spec.get("tier", "quick"))
         out.sample["faults"] = [f for _, f in flist[:6]]
         for kind, f in flist:
+            if lane.expired():
+                out.count("enumeration_truncated_by_budget")
+                break
             s2 = self.apply_fault(spec, kind, f)
             ex = world.expand(s2)
             changed = ex["capture"] != ex0["capture"] or ex["keylog"] != ex0["keylog"]
